@@ -123,6 +123,8 @@ func cmdMasks(args []string) {
 			ab := maskOfIDs([]int{i, j})
 			nb := b.Not()
 			nab := ab.Not()
+			emit(unLine(ab, []int{i, j, (j + 1) % n}))
+			emit(unLine(nab, []int{i, j, (i + 1) % n}))
 			emit(binLine("single-single", a, b))
 			emit(binLine("pair-single", ab, b))
 			emit(binLine("single-pair", a, ab))
@@ -131,6 +133,40 @@ func cmdMasks(args []string) {
 			emit(binLine("complpair-pair", nab, ab))
 			emit(binLine("compl-compl", na, nb))
 		}
+	}
+	// word patterns: every word of the mask empty / full / top bit / bottom bit / all but the top bit - the masks on
+	// which word-wise arithmetic (carries, wrapping sums, shifted comparisons) differs from set semantics
+	words := n / 64
+	pats := 1
+	for w := 0; w < words; w++ {
+		pats *= 5
+	}
+	var prevPat ecs.Mask
+	for pc := 0; pc < pats; pc++ {
+		ids := []int{}
+		c := pc
+		for w := 0; w < words; w++ {
+			lo, hi := w*64, w*64+63
+			switch c % 5 {
+			case 1:
+				for i := lo; i <= hi; i++ {
+					ids = append(ids, i)
+				}
+			case 2:
+				ids = append(ids, hi)
+			case 3:
+				ids = append(ids, lo)
+			case 4:
+				for i := lo; i < hi; i++ {
+					ids = append(ids, i)
+				}
+			}
+			c /= 5
+		}
+		m := maskOfIDs(ids)
+		emit(unLine(m, boundary))
+		emit(binLine("wordpattern-wordpattern", m, prevPat))
+		prevPat = m
 	}
 	// All() with duplicate ids, empty mask, full mask
 	empty := ecs.Mask{}
